@@ -21,6 +21,14 @@ def plan(tier, seed):
     specs.append({'lane': 'real', 'sc': 'recycle', 'timeout': 150, 'params': {
         'nproc': 2, 'maxtasks': None, 'max_mem': 1, 'T': 1.0, 'wait': 100, 'memlimit': True,
         'jobs': [{'kind': 'apply', 'tag': 'mem%d' % j, 'dur': 0.02} for j in range(6)]}})
+    # long chunked jobs on a recycling pool: still running long after (more than
+    # the 10 s loss timeout of a map) the workers that answered their first
+    # chunks have left on schedule
+    for (kind, mt) in ((('map', 1),) if tier == 'quick' else
+                       (('map', 1), ('imap_u', 1), ('imap', 2), ('map', 2))):
+        specs.append({'lane': 'real', 'sc': 'recycle', 'timeout': 200, 'params': {
+            'nproc': 2, 'maxtasks': mt, 'T': 1.0, 'wait': 120, 'long_chunked': True,
+            'jobs': [{'kind': kind, 'tag': 'lc', 'n': 32, 'dur': 0.9, 'chunk': 2}]}})
     for nproc, kill in ((2, 1), (4, 2)) if tier == 'quick' else ((2, 1), (3, 2), (4, 3)):
         specs.append({'lane': 'real', 'sc': 'kill_idle', 'timeout': 100,
                       'params': {'nproc': nproc, 'kill': kill, 'victim_kind': 'waiter',
@@ -114,6 +122,10 @@ def run_spec(spec, rec):
                       tasks=ntasks)
     rec.count('real:tasks_executed', sum(per.values()))
     rec.count('real:worker_processes_used', len(per))
+    if p.get('long_chunked'):
+        # the quota counts jobs: one chunk of two items is one job
+        rec.count('real:long_chunked_recycling_scenarios')
+        per = {pid: (n + 1) // 2 for pid, n in per.items()}
     downs = {e['wpid']: e.get('exitcode') for e in ev if e['k'] == 'process_down'}
     if quota:
         over = {pid: n for pid, n in per.items() if n > quota}
